@@ -28,7 +28,9 @@ func exec(op string) vlib.Res {
 	switch f[0] {
 	case "rw", "wg", "res", "burst", "eff", "proc":
 		return execLocal(op)
-	case "dedup", "sys":
+	case "inl", "bw":
+		return execLocal(op)
+	case "dedup", "sys", "ing":
 		if os.Getenv("C11_NOCHILD") != "" {
 			return execLocal(op)
 		}
@@ -55,6 +57,12 @@ func execLocal(op string) vlib.Res {
 		return execRes(f)
 	case "burst":
 		return execBurst(f)
+	case "ing":
+		return execIng(f)
+	case "inl":
+		return execInl(f)
+	case "bw":
+		return execBW(f)
 	case "eff":
 		return execEff(f)
 	case "proc":
@@ -87,6 +95,7 @@ func facts() map[string]any {
 		"wg_timeout_ms":            int(cache.VerifC11DedupTimeout(c) / time.Millisecond),
 		"query_timeout_default_ms": int(server.VerifC11QueryTimeout(srv) / time.Millisecond),
 		"rw_table":                 rwTable(),
+		"tcp_write_wait_ms":        tcpWriteWaitMs(),
 	}
 }
 
